@@ -6,10 +6,10 @@ import (
 	"context"
 	"encoding/binary"
 	"errors"
-	"fmt"
 	"io"
 	"net"
 	"net/http"
+	"strconv"
 	"strings"
 
 	"github.com/bolkedebruin/rdpgw/cmd/rdpgw/identity"
@@ -52,7 +52,7 @@ func NewWorld() *World {
 			return nil, nil
 		}
 		n := len(w.Backends)
-		gwEnd, beEnd := vnet.NewPipe(fmt.Sprintf("gw>backend%d", n), fmt.Sprintf("backend%d", n), true)
+		gwEnd, beEnd := vnet.NewPipe("gw>backend"+strconv.Itoa(n), "backend"+strconv.Itoa(n), true)
 		b := &Backend{Addr: address, Conn: beEnd, GwSide: gwEnd}
 		w.Backends = append(w.Backends, b)
 		if w.OnBackend != nil {
@@ -366,7 +366,7 @@ func (c *TunnelClient) deframe() {
 				// one websocket message must be exactly one packet
 				pk, rest, err := tsgu.Split(payload)
 				if err != nil || len(rest) != 0 || len(pk) != 1 {
-					c.FrameErr = fmt.Sprintf("websocket message of %d bytes is not exactly one packet", len(payload))
+					c.FrameErr = "websocket message of " + strconv.Itoa(len(payload)) + " bytes is not exactly one packet"
 				}
 				c.stream = append(c.stream, payload...)
 			case 8:
@@ -374,7 +374,7 @@ func (c *TunnelClient) deframe() {
 				c.CloseFrame = true
 			case 9, 10:
 			default:
-				c.FrameErr = fmt.Sprintf("unexpected opcode %d", op)
+				c.FrameErr = "unexpected opcode " + strconv.Itoa(int(op))
 			}
 			c.rbuf = c.rbuf[o+l:]
 		}
@@ -457,7 +457,7 @@ func (c *TunnelClient) SendSegment(b []byte) {
 	case "ws":
 		c.Conn.Write(wsFrame(2, true, b))
 	case "legacy":
-		c.In.Write([]byte(fmt.Sprintf("%x\r\n%s\r\n", len(b), b)))
+		c.In.Write(append(append([]byte(strconv.FormatInt(int64(len(b)), 16)+"\r\n"), b...), '\r', '\n'))
 	default:
 		c.Conn.Write(b)
 	}
